@@ -1,25 +1,35 @@
-"""R-IDX (second part): index spaces *inside* the sparse kernels and at the LocalNetwork /
-result-writer level.  Reuses the union-find engine of rules/idx.py (Var, union, report) and adds,
-in subclasses only (rules/idx.py is untouched):
+"""R-IDX (second part): index spaces *inside* the sparse kernels (rule_idx2_sparse, property C16) and at
+the LocalNetwork / result-writer level (rule_idx2_network and its views, properties C12, C09, C01).
+Tables: tables/index_spaces2.json (parts 'sparse' and 'network'; 'network' extends index_spaces.json).
+
+Reuses the union-find core of rules/idx.py (Var, union, bind; rules/idx.py itself is untouched) and adds,
+in subclasses:
 
   * def-use webs: a local that is re-initialised (`i = 0` ... `i = 3`) is one variable per web of
     reaching definitions (CFG data flow), so a function-level loop variable reused for several
     loops is typed per loop; `++/--/+=` keep the web;
-  * inferred slots: integer fields of the analysed classes (one variable per class field), results
-    of un-tabled analysed functions, index / element spaces of local arrays (`new Index[n]`,
-    `std::vector<int>`, `Mat<>`, ...) are type variables, not guesses;
+  * inferred slots: integer fields of the analysed classes (one variable per class field), integer
+    results of un-tabled analysed functions, index / element spaces of local arrays and container fields
+    (`new Index[n]`, `std::vector<int>`, `Vec<>`, `Mat<>`, `IntegerList<>`) are type variables, never guesses;
+  * calls into analysed functions without a table entry: the argument / result edge is applied only if
+    the callee side carries a space (has a binding or is linked to a field), to a fixed point; a helper
+    that is polymorphic in its integer parameter (`tagnl(out, name, n)`) does not merge its callers;
   * path-qualified slots (`RootedLevelStructure::adst.xadj`: the Adjacency object reused as a level
-    structure), arity-qualified methods (`BlockDiagonal::dim/1`), per-function renaming of the
-    spaces of *another* object of the same class (`t->rptr` inside SparseMatrix::transpose: rows of
-    the transpose are columns of this);
+    structure; also through a local reference / pointer to it), arity-qualified methods
+    (`BlockDiagonal::dim/1`), per-function renaming of the spaces of *another* object of the same class
+    (`t->rptr` inside SparseMatrix::transpose: rows of the transpose are columns of this);
   * pointer arithmetic `array + k` is a subscript; the tabled shift idiom `a[x - 1]`, `a[--x]`,
-    `a + x - 1` checks x against the 1-based counterpart of a 0-based slot;
-  * ordering comparisons constrain against a value of fixed space, which includes a const local
-    initialised from one (`const Index n = bd->dim(b)`);
+    `a + x - 1` checks x against the 1-based counterpart of a 0-based slot (nowhere else is x - 1 typed);
+  * counts: a slot marked 'count' holds the number of elements of a numbering; an ordering comparison
+    against a value of fixed space (tabled slot, or a const local initialised from one) makes the other
+    side *bounded* by that numbering: this conflicts with a use in another numbering unless the table
+    says the two have as many elements by construction; two fixed values (two counts) may be ordered
+    freely, and so may a variable that only ever holds counts; lengths (band widths) bound nothing;
   * `c ? a : b` joins its arms; `return e` is checked against / joined with the function result;
-    memcpy(dst, src) joins two arrays.
+    memcpy(dst, src) joins two arrays; constructor initialisers join field and argument.
 
-Everything that cannot be typed stays untyped (silent).
+Everything that cannot be typed stays untyped (silent).  Every tabled slot is checked to exist
+(vanished anchor: exit 2).
 """
 import re
 
@@ -72,12 +82,15 @@ class Typer2(idx.Typer):
         self.begin_like = {self._q(k) for k in table.get("container_begin", [])}
         self.minus = {k: v for k, v in table.get("minus_one", {}).items() if not k.startswith("_")}
         self.plus = {v: k for k, v in self.minus.items()}
+        self.same_count = {k: set(v) for k, v in table.get("same_count", {}).items() if not k.startswith("_")}
         self.lengths = set(table.get("lengths", []))          # spaces of lengths / widths: not ordered against indices
         self.shift_links = []
         self.infer_classes = set()
         self.class_fields = {}
         self._names = {}
         self.field_vars = set()
+        # objects with their own slot table: 'Owner::field' prefixes of the path-qualified keys
+        self.paths = {k.split(".", 1)[0] for k in list(self.methods) + list(self.fields) if "." in k.split("::")[-1]}
         self.deferred = []      # (callee-side type, caller-side type, site): applied only when the callee side is grounded
         self.proxies = set()
 
@@ -93,6 +106,9 @@ class Typer2(idx.Typer):
         if a == b:
             return True
         return b in self.compat.get(a, ()) or a in self.compat.get(b, ())
+
+    def equinumerous(self, a, b):
+        return b in self.same_count.get(a, ()) or a in self.same_count.get(b, ())
 
     # -- table lookups
     def method_spec2(self, callee_qn, callee_class, nargs):
@@ -364,6 +380,7 @@ class FnEnv2(idx.FnEnv):
     def __init__(self, T, fn):
         super().__init__(T, fn)
         self.fixed_const = {}
+        self.obj_path = {}      # local reference / pointer to an object that has its own slot table
         cand = {d for d, t in self.decl_type.items() if intlike(t)}
         self.use_web, self.decl_web = compute_webs(fn, cand)
         self.cls = strip_targs(fn.cls or "")
@@ -376,25 +393,45 @@ class FnEnv2(idx.FnEnv):
             return None
         return self.use_web.get(node["id"])
 
-    def _mk(self, spec):
+    def _mk(self, spec, count=False):
+        """('s', space[, True]) - the optional third element marks a *count* of that numbering."""
         if spec is None:
             return None
         if isinstance(spec, str):
-            return ("s", spec)
+            return ("s", spec, True) if count else ("s", spec)
         if isinstance(spec, dict) and "index" in spec:
             return ("c", list(spec["index"]), self._mk(spec.get("value")))
         if isinstance(spec, dict) and "space" in spec:
-            return ("s", spec["space"])
+            return ("s", spec["space"], True) if spec.get("count") else ("s", spec["space"])
         return None
+
+    @staticmethod
+    def _bs(t):
+        """bind label of a fixed type: '#S' for a count of S."""
+        return ("#" + t[1]) if len(t) > 2 and t[2] else t[1]
 
     def _subst(self, t, m):
         if t is None or not m:
             return t
         if t[0] == "s":
-            return ("s", m.get(t[1], t[1]))
+            return ("s", m.get(t[1], t[1])) + tuple(t[2:])
         if t[0] == "c":
             return ("c", [m.get(x, x) if isinstance(x, str) else x for x in t[1]], self._subst(t[2], m))
         return t
+
+    def path_of(self, e):
+        """'Owner::field' if the expression denotes an object held in a field that has path-qualified slots
+        (directly, or through a local reference / pointer initialised from it)."""
+        while e is not None and e.get("k") == "UnaryOperator" and e.get("op") in ("*", "&") and e.get("c"):
+            e = e["c"][0]
+        if e is None:
+            return None
+        if e.get("k") == "MemberExpr" and e.get("mk") == "field":
+            key = "%s::%s" % (strip_targs(e.get("owner", "")), e.get("member"))
+            return key if key in self.T.paths else None
+        if e.get("k") == "DeclRefExpr":
+            return self.obj_path.get(e["ref"].get("decl"))
+        return None
 
     def _is_foreign(self, base, owner):
         return (self.foreign_map is not None and base is not None and base.get("k") != "CXXThisExpr"
@@ -533,8 +570,9 @@ class FnEnv2(idx.FnEnv):
         c = n.get("c") or []
         base = c[0] if c else None
         spec = None
-        if base is not None and base.get("k") == "MemberExpr" and base.get("mk") == "field":
-            spec = T.fields.get("%s::%s.%s" % (strip_targs(base.get("owner", "")), base.get("member"), member))
+        path = self.path_of(base)
+        if path is not None:
+            spec = T.fields.get("%s.%s" % (path, member))
         if spec is None:
             spec = T.field_spec2(owner, member)
         foreign = self._is_foreign(base, owner)
@@ -667,8 +705,9 @@ class FnEnv2(idx.FnEnv):
         if n.get("k") == "CXXOperatorCallExpr" and n.get("memberOp"):
             nargs -= 1
         name = callee.rsplit("::", 1)[-1]
-        if obj is not None and obj.get("k") == "MemberExpr" and obj.get("mk") == "field":
-            base = "%s::%s.%s" % (strip_targs(obj.get("owner", "")), obj.get("member"), name)
+        path = self.path_of(obj)
+        if path is not None:
+            base = "%s.%s" % (path, name)
             for key in ("%s/%d" % (base, nargs), base):
                 spec = T.methods.get(key)
                 if spec is not None:
@@ -704,7 +743,7 @@ class FnEnv2(idx.FnEnv):
         if spec is not None:
             r = None
             if spec.get("ret"):
-                r = self._mk(spec["ret"])
+                r = self._mk(spec["ret"], bool(spec.get("count")))
             elif spec.get("ret_elems"):
                 r = ("s", spec["ret_elems"])
             return self._subst(r, ren)
@@ -741,9 +780,9 @@ class FnEnv2(idx.FnEnv):
         if ta[0] == "v" and tb[0] == "v":
             union(ta[1], tb[1])
         elif ta[0] == "v" and tb[0] == "s":
-            self.T.bind(ta[1], tb[1], site)
+            self.T.bind(ta[1], self._bs(tb), site)
         elif ta[0] == "s" and tb[0] == "v":
-            self.T.bind(tb[1], ta[1], site)
+            self.T.bind(tb[1], self._bs(ta), site)
         elif ta[0] == "s" and tb[0] == "s":
             if not self.T.same(ta[1], tb[1]):
                 self.T.conflicts.append({
@@ -762,15 +801,32 @@ class FnEnv2(idx.FnEnv):
     def equate(self, a, b, node, what):
         self.join(self.ty(a), self.ty(b), node, what)
 
-    def is_fixed(self, expr, t):
-        """a value of fixed space: tabled field / result, or a const local initialised from one."""
+    def fixed_space(self, expr, t):
         if t is None:
-            return False
+            return None
         if t[0] == "s":
-            return t[1] not in self.T.lengths
+            return t[1] if t[1] not in self.T.lengths else None
         if expr.get("k") == "DeclRefExpr" and expr["ref"].get("decl") in self.fixed_const:
-            return self.fixed_const[expr["ref"]["decl"]] not in self.T.lengths
-        return False
+            sp = self.fixed_const[expr["ref"]["decl"]]
+            return sp if sp not in self.T.lengths else None
+        return None
+
+    def order(self, a, b, node):
+        """a <,<=,>,>= b: constrains only against a value of fixed space, and only as a *bound*: the other
+        side is an index (or count) of a numbering with as many elements."""
+        ta, tb = self.ty(a), self.ty(b)
+        if ta is None or tb is None or ta[0] not in ("v", "s") or tb[0] not in ("v", "s"):
+            return
+        fa, fb = self.fixed_space(a, ta), self.fixed_space(b, tb)
+        what = "comparison '%s'" % F.expr_text(node)
+        site = _site(self.fn, node, what)
+        self.T.slot_count += 1
+        if fa is not None and fb is not None:
+            return        # two fixed values: a comparison of counts (fewer observations than unknowns)
+        elif fa is not None and tb[0] == "v":
+            self.T.bind(tb[1], "<=" + fa, site)
+        elif fb is not None and ta[0] == "v":
+            self.T.bind(ta[1], "<=" + fb, site)
 
     def call_constraints(self, n):
         fn = self.fn
@@ -875,10 +931,7 @@ class FnEnv2(idx.FnEnv):
                 elif op in ("==", "!=") and len(c) == 2:
                     self.equate(c[0], c[1], n, "comparison '%s'" % F.expr_text(n))
                 elif op in ("<", ">", "<=", ">=") and len(c) == 2:
-                    ta, tb = self.ty(c[0]), self.ty(c[1])
-                    if ta is not None and tb is not None and ta[0] in ("v", "s") and tb[0] in ("v", "s") \
-                            and (self.is_fixed(c[0], ta) or self.is_fixed(c[1], tb)):
-                        self.join(ta, tb, n, "comparison '%s'" % F.expr_text(n))
+                    self.order(c[0], c[1], n)
                 elif op in ("+", "-") and is_ptr(n.get("t", "")) and n["id"] not in inner_ptr:
                     self.arith(n, check=True)
             elif k == "ConditionalOperator" and len(c) == 3:
@@ -920,6 +973,11 @@ class FnEnv2(idx.FnEnv):
             self.cont[d["decl"]] = tl
             return
         if not intlike(t):
+            if init is not None and ("&" in t or "*" in t):
+                path = self.path_of(init)
+                if path is not None:
+                    self.obj_path[d["decl"]] = path
+                    return
             if init is not None:
                 it = self.ty(init)
                 if it is not None and it[0] == "c":
@@ -950,7 +1008,7 @@ class FnEnv2(idx.FnEnv):
         if it[0] == "v":
             union(v, it[1])
         else:
-            T.bind(v, it[1], site)
+            T.bind(v, self._bs(it), site)
             if re.search(r"\bconst\b", t) and not is_ptr(t):
                 self.fixed_const[d["decl"]] = it[1]
 
@@ -984,6 +1042,48 @@ class FnEnv2(idx.FnEnv):
 
 # ------------------------------------------------------------------------------- driver
 
+def check_anchors(T, methods, fields, sub):
+    """every tabled slot must still exist in the sources: a vanished anchor is exit 2, never a silent pass."""
+    fx = T.fx
+
+    def has_field(owner, member):
+        return T.field_type_of(T._q(owner), member) is not None
+
+    def has_method(qn):
+        return bool([f for f in fx.functions.values() if f.qn == T._q(qn)])
+
+    for k in methods:
+        name = k.split("/")[0]
+        if "." in name.split("::")[-1]:
+            path, meth = name.rsplit(".", 1)
+            owner, fld = path.rsplit("::", 1)
+            ft = T.field_type_of(T._q(owner), fld)
+            if ft is None:
+                raise AnalysisBroken("R-IDX: tabled object %s not found" % path)
+            cls = strip_targs(_norm_t(ft).rstrip("&* ").strip())
+            if not has_method("::" + cls + "::" + meth) and not has_method(cls + "::" + meth):
+                raise AnalysisBroken("R-IDX: tabled method %s (of %s) not found" % (k, cls))
+        elif not has_method(name):
+            raise AnalysisBroken("R-IDX: tabled method %s not found" % k)
+    for k in fields:
+        if "." in k.split("::")[-1]:
+            path, member = k.rsplit(".", 1)
+            owner, fld = path.rsplit("::", 1)
+            ft = T.field_type_of(T._q(owner), fld)
+            if ft is None:
+                raise AnalysisBroken("R-IDX: tabled object %s not found" % path)
+            cls = strip_targs(_norm_t(ft).rstrip("&* ").strip())
+            if T.field_type_of(cls, member) is None:
+                raise AnalysisBroken("R-IDX: tabled field %s (of %s) not found" % (k, cls))
+        else:
+            owner, member = k.rsplit("::", 1)
+            if not has_field(owner, member):
+                raise AnalysisBroken("R-IDX: tabled field %s not found" % k)
+    for q in list(sub.get("foreign", {})) + list(sub.get("locals", {})):
+        if not q.startswith("_") and not has_method(q):
+            raise AnalysisBroken("R-IDX: tabled function %s not found" % q)
+
+
 def run_typer2(ctx, part):
     table = engine.load_table(TABLE)
     sub = dict(table[part])
@@ -997,6 +1097,8 @@ def run_typer2(ctx, part):
         compat = dict(base.get("compatible", {}))
         compat.update(sub.get("compatible", {}))
         sub["compatible"] = compat
+    own_methods = [k for k in table[part].get("methods", {}) if not k.startswith("_")]
+    own_fields = [k for k in table[part].get("fields", {}) if not k.startswith("_")]
     sub.setdefault("methods", {})
     sub.setdefault("fields", {})
     for k in ("minus_one", "local_containers", "container_begin"):
@@ -1006,6 +1108,7 @@ def run_typer2(ctx, part):
     sub["fields"] = {k: v for k, v in sub["fields"].items() if not k.startswith("_")}
     fx = ctx.facts
     T = Typer2(ctx, sub)
+    check_anchors(T, own_methods, own_fields, sub)
     sc = sub["scope"]
     fns = []
     for cname in sc.get("classes", []):
@@ -1050,16 +1153,19 @@ def run_typer2(ctx, part):
                 if caller_t[0] == "v":
                     union(callee_t[1], caller_t[1])
                 else:
-                    T.bind(callee_t[1], caller_t[1], site)
+                    T.bind(callee_t[1], FnEnv2._bs(caller_t), site)
             else:
                 rest.append((callee_t, caller_t, site))
         T.deferred = rest
     return T, uniq, sub
 
 
-def report2(ctx, T, label):
+def report2(ctx, T, label, match=None):
     """one instance per typed variable class (unique key: the alphabetically first member, numbered if
-    needed) and per direct slot conflict."""
+    needed) and per direct slot conflict; `match` (substrings of member names / conflict keys) selects
+    the instances of one property view."""
+    def sel(names):
+        return match is None or any(m in n for n in names for m in match)
     roots = {}
     for key, v in T.vars.items():
         r = v.find()
@@ -1071,20 +1177,44 @@ def report2(ctx, T, label):
         if not r.binds:
             continue
         real = [m for m in members if id(m) not in T.proxies]
-        if not real:
+        if not real or not sel([m.name for m in real]):
             continue
         items.append((sorted(m.name for m in real)[0], r))
     for name, r in sorted(items, key=lambda x: x[0]):
         n_typed += 1
         used[name] = used.get(name, 0) + 1
         key = "%s:var:%s%s" % (label, name, "" if used[name] == 1 else "#%d" % used[name])
-        spaces = {}
+        spaces, bounds, counts = {}, {}, {}
         for s, site in r.binds:
-            spaces.setdefault(s, site)
+            if s.startswith("<="):
+                bounds.setdefault(s[2:], site)
+            elif s.startswith("#"):
+                counts.setdefault(s[1:], site)
+            else:
+                spaces.setdefault(s, site)
+        if not spaces and counts:
+            # a variable that only holds counts: ordering it against another count is no index confusion
+            bounds = {}
+        for s, site in counts.items():
+            spaces.setdefault(s, site + " (a count)")
         distinct = []
         for s in spaces:
             if not any(T.same(s, d) for d in distinct):
                 distinct.append(s)
+        # a bound (ordering against a value of fixed space B) agrees with a use in space S if S is B or a
+        # numbering with as many elements by construction; alone it types the variable
+        for b, site in bounds.items():
+            if not distinct and not spaces:
+                spaces[b] = site
+                distinct.append(b)
+            elif any(T.same(b, d) for d in distinct):
+                continue
+            elif spaces and all(T.equinumerous(b, d) for d in spaces):
+                continue
+            else:
+                spaces.setdefault(b, site + " (as a bound)")
+                if not any(T.same(b, d) for d in distinct):
+                    distinct.append(b)
         if len(distinct) > 1:
             ctx.bad(RULE, key, spaces[distinct[0]].split(" ")[0], name.split(":")[0],
                     "index variable is used in %d different index spaces: %s"
@@ -1095,27 +1225,46 @@ def report2(ctx, T, label):
     seen = set()
     for c in T.conflicts:
         key = "%s:slot:%s" % (label, c["key"])
-        if key in seen:
+        if key in seen or not sel([c["key"]]):
             continue
         seen.add(key)
         ctx.bad(RULE, key, c["fn"].where(c["node"]), c["fn"].short, c["msg"])
     return n_typed
 
 
-def _run(ctx, part, label, floor_vars, floor_slots, floor_fns, match=None):
+def _run(ctx, part, label, floor_vars, floor_slots, floor_fns, view=None):
     T, fns, sub = run_typer2(ctx, part)
-    n = report2(ctx, T, label)
-    ctx.floor(RULE, floor_vars, n, "typed index variables (%s)" % label)
+    match = sub["scope"]["views"][view]["match"] if view else None
+    n = report2(ctx, T, label, match)
+    ctx.floor(RULE, floor_vars, n, "typed index variables (%s%s)" % (label, " " + view if view else ""))
     ctx.floor(RULE, floor_slots, T.slot_count, "typed slots (%s)" % label)
     ctx.floor(RULE, floor_fns, len(fns), "analysed functions (%s)" % label)
     return {"typed_slots": T.slot_count, "typed_variables": n, "functions": len(fns)}
 
 
+# measured on the unchanged tree: sparse 129 variables / 445 slots / 100 functions,
+# network 133 variables / 620 slots / 348 functions; floors at about 80 %.
+
 def rule_idx2_sparse(ctx):
     """C16: index spaces inside SparseMatrix / Adjacency / ordering / Envelope / BlockDiagonal / Homogenization."""
-    return _run(ctx, "sparse", "idx2s", 1, 1, 1)
+    return _run(ctx, "sparse", "idx2s", 103, 356, 80)
 
 
 def rule_idx2_network(ctx):
-    """C09 / C12 / C01: observation numbers vs unknown numbers in LocalNetwork and the result writers."""
-    return _run(ctx, "network", "idx2n", 1, 1, 1)
+    """C12 (+ C09, C01): observation numbers vs unknown numbers in LocalNetwork and the result writers (all views)."""
+    return _run(ctx, "network", "idx2n", 106, 496, 278)
+
+
+def rule_idx2_network_c09(ctx):
+    """C09 view: the standard-deviation / cofactor accessors of LocalNetwork and the code that fills them."""
+    return _run(ctx, "network", "idx2n", 19, 496, 278, "C09")
+
+
+def rule_idx2_network_c01(ctx):
+    """C01 view: project equations, solution and residual path of LocalNetwork."""
+    return _run(ctx, "network", "idx2n", 28, 496, 278, "C01")
+
+
+def rule_idx2_network_c12(ctx):
+    """C12 view: the result writers (XML, Octave, SQL, HTML, SVG, text) and the accessors they read."""
+    return _run(ctx, "network", "idx2n", 80, 496, 278, "C12")
